@@ -5,6 +5,7 @@
 import MiniMoka.Wire
 import MiniMoka.Unsync
 import MiniMoka.Sync
+import MiniMoka.Spec.Oracles
 
 namespace MiniMoka
 namespace Driver
@@ -65,15 +66,84 @@ partial def loop (h : IO.FS.Stream) (out : IO.FS.Stream) (m : Machine) : IO Unit
   | none => pure ()
   loop h out m'
 
+/-! ### oracle mode: judge recorded traces -/
+
+def kindOf (c : Cfg) : Spec.Kind :=
+  match c.kind with
+  | .unsync => .unsync
+  | .sync => .sync
+
+/-- The oracle of a property, by its id. `none` = no such oracle. -/
+def oracleFor (prop : String) (c : Cfg) (t : Spec.Trace) : Option Bool :=
+  match prop with
+  | "C08" => some (Spec.noPanic t)
+  | "C10" => some (Spec.oracleC10 (kindOf c) t)
+  | _ => none
+
+structure Case where
+  idx : Nat
+  cfgLine : String
+  cfg : Option Cfg
+  trace : List (Op × Obs) := []      -- reversed
+  parseError : Option String := none
+
+def finishCase (prop : String) (out : IO.FS.Stream) (c : Case) : IO Unit := do
+  match c.parseError, c.cfg with
+  | some e, _ => out.putStrLn s!"case {c.idx} PARSE-ERROR {e}"
+  | none, none => out.putStrLn s!"case {c.idx} SKIP {c.cfgLine}"
+  | none, some cfg =>
+    match oracleFor prop cfg c.trace.reverse with
+    | none => out.putStrLn s!"case {c.idx} NO-ORACLE {prop}"
+    | some true => out.putStrLn s!"case {c.idx} ok"
+    | some false => out.putStrLn s!"case {c.idx} FAIL {c.cfgLine}"
+
+partial def oracleLoop (prop : String) (h : IO.FS.Stream) (out : IO.FS.Stream)
+    (cur : Option Case) (n : Nat) : IO Unit := do
+  let line ← h.getLine
+  if line.isEmpty then
+    match cur with
+    | some c => finishCase prop out c
+    | none => pure ()
+    return ()
+  let l := line.trimAscii.toString
+  if l.isEmpty || l.startsWith "#" then oracleLoop prop h out cur n
+  else if l.startsWith "cfg" then
+    match cur with
+    | some c => finishCase prop out c
+    | none => pure ()
+    let opS := opPart l
+    let built := (l.splitOn " -> ").getD 1 "" == "ok"
+    let cfg := if built then parseCfg opS else none
+    oracleLoop prop h out (some { idx := n, cfgLine := opS, cfg := cfg }) (n + 1)
+  else
+    match cur with
+    | none => oracleLoop prop h out cur n
+    | some c =>
+      match l.splitOn " -> " with
+      | [opS, obS] =>
+        match parseOp opS, parseObs obS with
+        | some op, some ob => oracleLoop prop h out (some { c with trace := (op, ob) :: c.trace }) n
+        | _, _ =>
+          let c' := if c.parseError.isSome then c else { c with parseError := some l }
+          oracleLoop prop h out (some c') n
+      | _ =>
+        let c' := if c.parseError.isSome then c else { c with parseError := some l }
+        oracleLoop prop h out (some c') n
+
 def main (args : List String) : IO UInt32 := do
   match args with
+  | ["oracle", prop] =>
+    let stdin ← IO.getStdin
+    let stdout ← IO.getStdout
+    oracleLoop prop stdin stdout none 0
+    return 0
   | ["model"] =>
     let stdin ← IO.getStdin
     let stdout ← IO.getStdout
     loop stdin stdout .idle
     return 0
   | _ =>
-    IO.eprintln "usage: mmdriver model < ops"
+    IO.eprintln "usage: mmdriver model < ops | mmdriver oracle <Cxx> < trace"
     return 2
 
 end Driver
